@@ -60,7 +60,11 @@ func (g *bsGenState) events(bn uint64, n int, gapBridge bool) (string, int) {
 		case k < 5:
 			dc := g.nextDC
 			if gapBridge && i == n-1 {
-				dc += 1 + uint64(rng.Intn(3))
+				if dc > 0 && rng.Chance(35) {
+					dc = uint64(rng.Intn(int(dc))) // the chain announces a deposit count the node already holds
+				} else {
+					dc += 1 + uint64(rng.Intn(3))
+				}
 			} else {
 				g.nextDC++
 			}
@@ -143,7 +147,23 @@ func bsWorldGen(r *Run, rng *Rng, w *bsWorld, steps int, allowRm bool) {
 	bn := g.first
 	g.tip = bn - 1
 	halted := false
+	directedBack := false
 	for s := 0; s < steps; s++ {
+		if !directedBack && !halted && s >= steps/3 && g.nextDC >= 2 && !w.p.IsHalted() {
+			// directed: the chain announces a deposit count the node already holds (it went BACKWARDS): as much an inconsistency
+			// as a forward gap — the syncer has to halt
+			directedBack = true
+			tok := fmt.Sprintf("b;%d;%d;%d;%d;%s;%d;%s;%s;%s;%d;%s;%s;%s;%s", 0, g.nextDC-2, rng.Intn(2), bsNet(rng), hx(rng.Bytes(20)), bsNet(rng),
+				hx(rng.Bytes(20)), bsAmount(rng), bsMeta(rng), 1700000000+bn, hx(rng.Bytes(32)), hx(rng.Bytes(20)), hx(rng.Bytes(rng.Intn(12))), "0")
+			if o := w.exec(r, fmt.Sprintf("blk %d - %s", bn, tok)); o != "err inconsistent" {
+				r.Fail("[C14] a block announcing a deposit count the node already holds was answered with "+o+" (expected the syncer to halt with an inconsistency error)", append([]string{"new"}, w.lines...))
+			} else {
+				halted = true
+				w.checkHaltedQueries(r)
+			}
+			r.Count("branch:directed-backward-deposit-count")
+			continue
+		}
 		c := rng.Intn(100)
 		switch {
 		case halted || c < 12:
@@ -295,6 +315,19 @@ func bsWorldGen(r *Run, rng *Rng, w *bsWorld, steps int, allowRm bool) {
 					r.Count("branch:fault")
 					if obs == "ok" {
 						break
+					}
+					if obs == "err fault" && rng.Chance(12) && strings.HasPrefix(evs, "b;") {
+						// instead of the retry another block arrives whose first deposit count is one PAST the deposit that just
+						// failed to be stored (a gap): the syncer has to halt, whatever its in-memory frontier went through
+						first := bigOf(strings.Split(strings.Fields(evs)[0], ";")[2]).Uint64()
+						gapTok := fmt.Sprintf("b;%d;%d;%d;%d;%s;%d;%s;%s;%s;%d;%s;%s;%s;%s", 0, first+1, rng.Intn(2), bsNet(rng), hx(rng.Bytes(20)), bsNet(rng),
+							hx(rng.Bytes(20)), bsAmount(rng), bsMeta(rng), 1700000000+bn, hx(rng.Bytes(32)), hx(rng.Bytes(20)), hx(rng.Bytes(rng.Intn(12))), "0")
+						if o := w.exec(r, fmt.Sprintf("blk %d - %s", bn+1, gapTok)); o != "err inconsistent" {
+							r.Fail("[C14,C01] after a failed store of deposit "+fmt.Sprint(first)+" a block starting at deposit "+fmt.Sprint(first+1)+" (a gap) was answered with "+o+" instead of halting", append([]string{"new"}, w.lines...))
+						}
+						r.Count("branch:gap-after-failed-store")
+						w.checkHaltedQueries(r)
+						w.exec(r, "restart") // a restart clears the in-memory flag; the tables are consistent
 					}
 					if rng.Chance(20) {
 						w.exec(r, "restart")
